@@ -96,6 +96,111 @@ fn at(v: &CVal, sh: (usize, usize), i: usize, j: usize) -> CVal {
   }
 }
 
+pub const CTX_FORMS: [&str; 4] = ["ctx-match", "ctx-bound", "ctx-fn", "ctx-compr"];
+pub const SRC_FORMS: [&str; 9] = ["var", "mut", "paren", "copy", "field", "tuple", "slice", "sub", "elems"];
+
+/// binds operand `v` under base name `n` in session `s` and returns the source text that denotes it in form `form`
+/// (None when the form has no spelling for this operand)
+fn src_form(s: &mut Sess, n: &str, v: &CVal, form: &str) -> Option<String> {
+  s.bind(n, v, form == "mut");
+  let (r, c) = v.shape();
+  match form {
+    "var" | "mut" => Some(n.to_string()),
+    "paren" => Some(format!("({})", n)),
+    "copy" => { if !s.eval(&format!("c{} := {}", n, n)).is_ok() { return None; } Some(format!("c{}", n)) }
+    "field" => { if !s.eval(&format!("r{} := {{f: {}, g: 1}}", n, n)).is_ok() { return None; } Some(format!("r{}.f", n)) }
+    "tuple" => { if !s.eval(&format!("t{} := ({}, true)", n, n)).is_ok() { return None; } Some(format!("t{}.1", n)) }
+    "slice" => {
+      if !s.eval(&format!("w{} := [{} {}]", n, n, n)).is_ok() { return None; }
+      if v.is_matrix() { Some(format!("w{}[1..={},{}..={}]", n, r, c + 1, 2 * c)) } else { Some(format!("w{}[2]", n)) }
+    }
+    "sub" => if v.is_matrix() { Some(format!("{}[1..={},1..={}]", n, r, c)) } else { None },
+    "elems" => {
+      if !v.is_matrix() { return None; }
+      let e = v.elems();
+      for (i, x) in e.iter().enumerate() { s.bind(&format!("{}e{}", n, i), x, false); }
+      let rows: Vec<String> = (0..r).map(|i| (0..c).map(|j| format!("{}e{}", n, j * r + i)).collect::<Vec<_>>().join(" ")).collect();
+      Some(format!("[{}]", rows.join("; ")))
+    }
+    _ => None,
+  }
+}
+
+fn run_srcform(case: &Case) -> Outcome {
+  let op = case.input["op"].as_str().unwrap().to_string();
+  let lhs: CVal = serde_json::from_value(case.input["lhs"].clone()).unwrap();
+  let rhs: CVal = serde_json::from_value(case.input["rhs"].clone()).unwrap();
+  let (fl, fr) = (case.input["fl"].as_str().unwrap(), case.input["fr"].as_str().unwrap());
+  // reference: plain API-bound variables
+  let mut t = Sess::new();
+  t.bind("p", &lhs, false); t.bind("q", &rhs, false);
+  let plain = t.eval(&format!("p {} q", op));
+  let Ev::Ok(pv) = &plain else { return Outcome::trivial().tag("plain-form-not-a-value") };
+  if fl == "same" {
+    let mut s = Sess::new();
+    s.bind("a", &lhs, false);
+    let text = format!("a {} a", op);
+    let res = s.eval(&text);
+    let mut o = match &res {
+      Ev::ParseErr(m) => return Outcome::inconclusive("harness-parse", format!("{}: {}", text, m)),
+      Ev::Panic(m) => Outcome::violated("panic-escaped", format!("{}: {}", text, m)),
+      Ev::Ok(v) if v == pv => Outcome::held(),
+      Ev::Ok(v) => Outcome::violated("source-form-differs", format!("{} with a = {} gave {} but two separately bound copies give {}", text, lhs.show(), v.show(), pv.show())),
+      Ev::Err(kd, m) => Outcome::violated("source-form-rejected", format!("{} with a = {} failed ({} {}) but two separately bound copies give {}", text, lhs.show(), kd, m.chars().take(100).collect::<String>(), pv.show())),
+    };
+    o.tags = vec!["srcform:same".to_string()]; return o;
+  }
+  if fl.starts_with("ctx-") {
+    let k = case.input["kind"].as_str().unwrap();
+    let mut s = Sess::new();
+    s.bind("a", &lhs, false); s.bind("b", &rhs, false);
+    let outk = if is_cmp(&op) || is_logic(&op) { "bool" } else { k };
+    let (defs, text): (Option<String>, String) = match fl {
+      "ctx-match" => (None, format!("y := 1u64?\n  | 7 => b {op} a\n  | n => a {op} b\n  | * => b.", op = op)),
+      "ctx-bound" => (None, format!("y := (a, b)?\n  | (p, q) => p {op} q\n  | * => b.", op = op)),
+      "ctx-fn" => (Some(format!("cf(p<{k}>, q<{k}>) => <{o}>\n  | (u, v) => u {op} v.", k = k, o = outk, op = op)), "cf(a, b)".to_string()),
+      _ => (None, format!("[a {} b | i <- [1]]", op)),
+    };
+    if let Some(d) = &defs { if !s.eval(d).is_ok() { return Outcome::trivial().tag(format!("form-unavailable:{}", fl)); } }
+    // the construct itself must work with a trivially correct body first (so that only the operator is under test)
+    let probe = match fl { "ctx-match" => s.eval("y0 := 1u64?\n  | 7 => b\n  | n => a\n  | * => b.") , "ctx-bound" => s.eval("y0 := (a, b)?\n  | (p, q) => p\n  | * => b."), "ctx-fn" => { let d0 = format!("cf0(p<{k}>, q<{k}>) => <{k}>\n  | (u, v) => u.", k = k); if s.eval(&d0).is_ok() { s.eval("cf0(a, b)") } else { Ev::Err("def".into(), String::new()) } }, _ => s.eval("[a | i <- [1]]") };
+    let probe_ok = match (&probe, fl) { (Ev::Ok(v), "ctx-compr") => v.elems().len() == 1 && v.elems()[0] == lhs, (Ev::Ok(v), _) => v == &lhs, _ => false };
+    if !probe_ok { return Outcome::trivial().tag(format!("form-unavailable:{}", fl)); }
+    let res = s.eval(&text);
+    let got = match (&res, fl) { (Ev::Ok(v), "ctx-compr") if v.elems().len() == 1 => Ev::Ok(v.elems()[0].clone()), _ => res.clone() };
+    let mut o = match &got {
+      Ev::ParseErr(m) => return Outcome::inconclusive("harness-parse", format!("{}: {}", text, m)),
+      Ev::Panic(m) => Outcome::violated("panic-escaped", format!("{}: {}", text, m)),
+      Ev::Ok(v) if v == pv => Outcome::held(),
+      Ev::Ok(v) => Outcome::violated("context-differs", format!("{} {} with a = {} b = {} gave {} but the top-level formula gives {}", defs.clone().unwrap_or_default(), text, lhs.show(), rhs.show(), v.show(), pv.show())),
+      Ev::Err(kd, m) => Outcome::violated("context-rejected", format!("{} {} with a = {} b = {} failed ({} {}) but the top-level formula gives {}", defs.clone().unwrap_or_default(), text, lhs.show(), rhs.show(), kd, m.chars().take(100).collect::<String>(), pv.show())),
+    };
+    o.tags = vec![format!("srcform:{}", fl)]; return o;
+  }
+  let mut s = Sess::new();
+  let (Some(ta), Some(tb)) = (src_form(&mut s, "a", &lhs, fl), src_form(&mut s, "b", &rhs, fr)) else { return Outcome::trivial().tag("form-has-no-spelling") };
+  // the form alone must denote exactly the operand (kind, shape, elements); otherwise the form is not available for it
+  for (txt, v, f) in [(&ta, &lhs, fl), (&tb, &rhs, fr)] {
+    match s.eval(txt) { Ev::Ok(x) if &x == v => {}, other => return Outcome::trivial().tag(format!("form-unavailable:{}", f)).tag(format!("form-unavailable-detail:{}:{}", f, other.show().chars().take(40).collect::<String>())) }
+  }
+  let before = s.snapshot();
+  let text = format!("{} {} {}", ta, op, tb);
+  let res = s.eval(&text);
+  let tags = vec![format!("srcform:{}:{}", fl, fr), format!("arm:{}", s.last_arm().split_whitespace().next().unwrap_or(""))];
+  let mut o = match &res {
+    Ev::ParseErr(m) => return Outcome::inconclusive("harness-parse", format!("{}: {}", text, m)),
+    Ev::Panic(m) => Outcome::violated("panic-escaped", format!("{}: {}", text, m)),
+    Ev::Ok(v) if v == pv => {
+      // reading operands through any form never changes them
+      let after = s.snapshot();
+      if after != before { Outcome::violated("operand-changed", format!("{} changed the session: before {} after {}", text, show_snapshot(&before), show_snapshot(&after))) } else { Outcome::held() }
+    }
+    Ev::Ok(v) => Outcome::violated("source-form-differs", format!("{} with a = {} b = {} gave {} but plain variables give {}", text, lhs.show(), rhs.show(), v.show(), pv.show())),
+    Ev::Err(k, m) => Outcome::violated("source-form-rejected", format!("{} with a = {} b = {} failed ({} {}) but plain variables give {}", text, lhs.show(), rhs.show(), k, m.chars().take(100).collect::<String>(), pv.show())),
+  };
+  o.tags = tags; o
+}
+
 impl Prop for C01 {
   fn id(&self) -> &'static str { "C01" }
   fn rule(&self) -> String { "cells = operator x element kind x (lhs shape, rhs shape, relation); operands bound through the API with pairwise-distinct asymmetric elements; draw 0 benign, draw 1 random small, draw 2 boundary/random. A case is non-trivial when the scalar form of (operator, kind) is defined (learned from a probe) so that the matrix/broadcast clauses and the reference arithmetic were actually compared. distinct = distinct case ids".into() }
@@ -151,6 +256,62 @@ impl Prop for C01 {
         }
       }
     }
+    // operand SOURCE forms: the same operand reached through a mutable variable, parentheses, a copy, a record field,
+    // a tuple element, a slice of a wider matrix, a full 2-D subscript, or a literal assembled from scalar variables.
+    // The oracle is the evaluation with plain variables (judged by the sweep above).
+    let sf_pairs: Vec<(Shape, Shape)> = if tier == Tier::Quick { vec![(None, None), (Some((1, 3)), Some((1, 3))), (Some((2, 3)), Some((2, 3))), (None, Some((2, 3))), (Some((3, 1)), None)] }
+      else { vec![(None, None), (Some((1, 3)), Some((1, 3))), (Some((3, 1)), Some((3, 1))), (Some((2, 3)), Some((2, 3))), (Some((3, 2)), Some((3, 2))), (Some((5, 1)), Some((5, 1))), (None, Some((2, 3))), (None, Some((1, 4))), (Some((3, 1)), None), (Some((3, 2)), None), (Some((2, 3)), Some((1, 3))), (Some((2, 1)), Some((2, 3)))] };
+    for op in BINOPS.iter() {
+      for k in ALL_KINDS.iter() {
+        for (pi, (l, r)) in sf_pairs.iter().enumerate() {
+          let combos: Vec<(usize, usize)> = if tier == Tier::Quick {
+            // two form pairs per cell, rotating with the seed and the cell
+            let h = Rng::keyed(seed, &format!("sf;{};{};{}", op, k, pi)).next() as usize;
+            vec![(1 + h % (SRC_FORMS.len() - 1), 0), (0, 1 + (h / 16) % (SRC_FORMS.len() - 1)), (1 + (h / 256) % (SRC_FORMS.len() - 1), 1 + (h / 4096) % (SRC_FORMS.len() - 1))]
+          } else {
+            let mut v = Vec::new();
+            for f in 1..SRC_FORMS.len() { v.push((f, 0)); v.push((0, f)); v.push((f, f)); v.push((f, 1 + f % (SRC_FORMS.len() - 1))); }
+            v
+          };
+          // the whole formula evaluated inside another construct: a match arm over globals, operands bound by a tuple
+          // pattern, a function arm with the operands as arguments (scalars), a comprehension head (scalars)
+          {
+            let ctxs: Vec<&str> = if tier == Tier::Quick { vec![CTX_FORMS[(Rng::keyed(seed, &format!("ctx;{};{};{}", op, k, pi)).next() % CTX_FORMS.len() as u64) as usize]] } else { CTX_FORMS.to_vec() };
+            for cx in ctxs {
+              if (cx == "ctx-fn" || cx == "ctx-compr") && (l.is_some() || r.is_some()) { continue; }
+              let cell = format!("srcform;op={};kind={};l={};r={};fl={};fr={}", op, k, shape_name(*l), shape_name(*r), cx, cx);
+              let id = format!("{};d={}", cell, seed % 3);
+              let mut rng = Rng::keyed(seed, &id);
+              let d = (seed % 2) as usize;
+              let lhs = mk_operand(k, *l, 0, d, op, &mut rng);
+              let rhs = mk_operand(k, *r, 1, d, op, &mut rng);
+              out.push(Case { id, cell, input: json!({"stratum": "srcform", "op": op, "kind": k, "lhs": lhs, "rhs": rhs, "fl": cx, "fr": cx}) });
+            }
+          }
+          // the SAME variable on both sides (a op a): kernels that special-case aliased operands, NaN != NaN included
+          if l == r {
+            let mut ds = vec![(seed % 2) as usize];
+            if is_float(k) { ds.push(9); }
+            for d in ds {
+              let cell = format!("srcform;op={};kind={};l={};r={};fl=same;fr=same", op, k, shape_name(*l), shape_name(*r));
+              let id = format!("{};d={}", cell, d);
+              let mut rng = Rng::keyed(seed, &id);
+              let lhs = mk_operand(k, *l, 0, d, op, &mut rng);
+              out.push(Case { id, cell, input: json!({"stratum": "srcform", "op": op, "kind": k, "lhs": lhs, "rhs": lhs, "fl": "same", "fr": "same"}) });
+            }
+          }
+          for (fl, fr) in combos {
+            let cell = format!("srcform;op={};kind={};l={};r={};fl={};fr={}", op, k, shape_name(*l), shape_name(*r), SRC_FORMS[fl], SRC_FORMS[fr]);
+            let id = format!("{};d={}", cell, seed % 3);
+            let mut rng = Rng::keyed(seed, &id);
+            let d = (seed % 2) as usize;
+            let lhs = mk_operand(k, *l, 0, d, op, &mut rng);
+            let rhs = mk_operand(k, *r, 1, d, op, &mut rng);
+            out.push(Case { id, cell, input: json!({"stratum": "srcform", "op": op, "kind": k, "lhs": lhs, "rhs": rhs, "fl": SRC_FORMS[fl], "fr": SRC_FORMS[fr]}) });
+          }
+        }
+      }
+    }
     out
   }
 
@@ -159,6 +320,7 @@ impl Prop for C01 {
 
   fn run(&self, case: &Case, _flavour: &str) -> Outcome {
     if case.cell.starts_with("stage=miri") { return crate::fw::miri_run_one(case); }
+    if case.input["stratum"] == "srcform" { return run_srcform(case); }
     let op = case.input["op"].as_str().unwrap().to_string();
     let k = case.input["kind"].as_str().unwrap().to_string();
     let rel = case.input["rel"].as_str().unwrap().to_string();
